@@ -10,7 +10,7 @@ import vlib
 
 def plain(rng, n):
     for _ in range(n):
-        es = specgen.gen_plain_einsum(rng)
+        es = specgen.gen_plain_einsum(rng, out_only_p=0.12)
         mp = specgen.random_mapping(rng, es)
         yield {"yaml": specgen.yaml_of(es["decl"], [es["expr"]], mp), "syms": {}, "kind": "plain", "es": es, "mapping": mp}
 
@@ -38,6 +38,14 @@ def affine(rng, n):
         es = specgen.gen_affine_einsum(rng)
         mp, kind, syms = specgen.affine_mapping(rng, es)
         yield {"yaml": specgen.yaml_of(es["decl"], [es["expr"]], mp), "syms": syms, "kind": "affine", "es": es, "mapping": mp}
+
+
+def affine_occ(rng, n):
+    """index math with an occupancy-partitioned filter rank"""
+    for _ in range(n):
+        es = specgen.gen_affine_einsum(rng)
+        mp, kind, syms = specgen.affine_occupancy_mapping(rng, es)
+        yield {"yaml": specgen.yaml_of(es["decl"], [es["expr"]], mp), "syms": syms, "kind": "affine-occ", "es": es, "mapping": mp}
 
 
 def cascade(rng, n):
